@@ -149,7 +149,13 @@ impl Cell for str {
             }
             // Don't add the delimiter if we just trimmed whitespace.
             if self[boundary..].trim().is_empty() {
-                self[..boundary + 1].to_owned()
+                // Keep one whitespace grapheme in place of the delimiter, if it fits.
+                match self[boundary..].graphemes(true).next() {
+                    Some(g) if cols + Cell::width(g) <= width => {
+                        self[..boundary + g.len()].to_owned()
+                    }
+                    _ => self[..boundary].to_owned(),
+                }
             } else {
                 format!("{}{delim}", &self[..boundary])
             }
